@@ -1,9 +1,14 @@
 #!/bin/bash
-# usage: mutcheck.sh <patch.diff> <Cnn> [extra check args]  -- apply a seeded change to /repo, run the check, undo
-P=$1; C=$2; shift 2
-cd /repo && git apply "$P" || { echo "APPLY FAILED"; exit 3; }
-cd /verif && ./check $C --no-evidence "$@" 2>&1 | grep -v "^  obligation" | tail -12
+# usage: mutcheck.sh <patch.diff> <Cnn> [extra check args]
+# Applies a seeded change in a scratch worktree of /repo (never in /repo itself), points the check at it
+# through VF_REPO_SRC, and removes the worktree afterwards.
+P=$(readlink -f "$1"); C=$2; shift 2
+W=/tmp/mw/$(basename "$(dirname "$P")")_$C_$$
+mkdir -p /tmp/mw
+git -C /repo worktree add --detach -q "$W" HEAD || { echo "WORKTREE FAILED"; exit 3; }
+trap 'git -C /repo worktree remove --force "$W" 2>/dev/null; rm -rf "$W"' EXIT
+git -C "$W" apply "$P" || { echo "APPLY FAILED"; exit 3; }
+cd /verif && VF_REPO_SRC="$W/src" VF_REPLAY_DIR="/tmp/mw/replays_$$" ./check $C --no-evidence "$@" 2>&1 | grep -v "^  obligation" | tail -12
 rc=${PIPESTATUS[0]}
-cd /repo && git checkout -- . 
-rm -rf /verif/replays/$C
+rm -rf "/tmp/mw/replays_$$"
 echo "exit=$rc"
